@@ -1,5 +1,62 @@
 import WuffsVerif.Common.Line
-/-! Line driver for C02 — stub, not built yet. -/
-open WuffsVerif.Line
+import WuffsVerif.Model.Axioms
+import WuffsVerif.Gen.C02_AxiomDefs
+/-! Line driver for C02 (axioms half).  Ops:
+  name i                -> md=<axioms.md string> | data=<data.go name> | body=<rule read back from the body>
+  ax i v0 v1 …          -> holds | premise-false | VIOLATED   (axiom i of axioms.md; vars in sorted-name order)
+  impl i v0 v1 …        -> same, for the rule implemented by data.go's reason function i
+  parse <hex of text>   -> ok <canonical text> | <vars> , or err   (Lean model of gen.go's parser)
+`ax`/`impl` evaluate BOTH the generated data through `Axiom.check` (the function the theorems are about)
+and the generated direct arithmetic `evalAxiom`; they must agree, else `MISMATCH`. Also the Lean parser
+applied to the listed string must give the generated data, else `GEN-MISMATCH`.
+-/
+open WuffsVerif WuffsVerif.Line WuffsVerif.Axioms
 
-def main : IO Unit := runPure (fun _ => "bad-op")
+def getS (l : List String) (i : Nat) : String := (l[i]?).getD "<missing>"
+
+def evalBoth (axs : List Axiom) (texts : List String) (direct : Nat → List Int → String)
+    (i : Nat) (vals : List Int) : String :=
+  match axs[i]? with
+  | none => "bad-op"
+  | some ax =>
+    let a := (ax.check vals).toString
+    let b := direct i vals
+    if a != b then "MISMATCH " ++ a ++ " " ++ b else
+    match texts[i]? with
+    | none => "GEN-MISMATCH no-text"
+    | some t =>
+      match parseAxiom t.toList with
+      | some (ax', _) => if ax' == ax then a else "GEN-MISMATCH"
+      | none => "GEN-MISMATCH unparsable"
+
+def c02Step (l : List String) : String :=
+  match l with
+  | ["name", i] =>
+    match i.toNat? with
+    | some i => "md=" ++ getS Gen.C02.axiomsMd i ++ " | data=" ++ getS Gen.C02.dataGo i ++ " | body=" ++ getS Gen.C02.dataGoBodies i
+    | none => "bad-op"
+  | ["parse", h] =>
+    match fromHex h with
+    | none => "bad-op"
+    | some bs =>
+      let cs := bs.map (fun b => Char.ofNat b.toNat)
+      match parseAxiom cs with
+      | some (ax, vars) => "ok " ++ ax.show vars ++ " | " ++ ",".intercalate (vars.map String.ofList)
+      | none => "err"
+  | "ax" :: i :: vs =>
+    match i.toNat?, vs.mapM String.toInt? with
+    | some i, some vals =>
+      if i < Gen.C02.axiomsMd.length && Gen.C02.axioms.length == Gen.C02.axiomsMd.length then
+        if vs.isEmpty then "unreadable" else evalBoth Gen.C02.axioms Gen.C02.axiomsMd Gen.C02.evalAxiom i vals
+      else "bad-op"
+    | _, _ => "bad-op"
+  | "impl" :: i :: vs =>
+    match i.toNat?, vs.mapM String.toInt? with
+    | some i, some vals =>
+      if i < Gen.C02.dataGoBodies.length && Gen.C02.implAxioms.length == Gen.C02.dataGoBodies.length then
+        if vs.isEmpty then "unreadable" else evalBoth Gen.C02.implAxioms Gen.C02.dataGoBodies Gen.C02.evalImpl i vals
+      else "bad-op"
+    | _, _ => "bad-op"
+  | _ => "bad-op"
+
+def main : IO Unit := Line.runPure c02Step
